@@ -110,6 +110,7 @@ fn worker(case: &str, trace: &str) {
     let mut runs: Vec<Vec<String>> = vec![];
     let (mut conts_in_run, mut early) = (0usize, false);
     let mut conts_per_run: Vec<usize> = vec![];
+    let mut restart_panic: Option<String> = None;
     for c in cmds.iter() {
         let label = match *c { "run" => "cmd.run", "cont" => "cmd.cont", "recv" => "cmd.recv", x if x.starts_with("add") => "cmd.add", _ => "cmd.del" };
         sh.0.lock().unwrap().ctrl_at = label.to_string();
@@ -129,7 +130,7 @@ fn worker(case: &str, trace: &str) {
                 if let Some(old) = cur_rx.take() { keep.push(old); }
                 let r = ctx.run(&start, tx);
                 let mut g = sh.0.lock().unwrap();
-                match r { Ok(()) => { g.rets.push("run:ok".into()); g.passed.push("SPAWN".into()); g.run_no += 1; g.entry_idx = 0; cur_rx = Some(rx); runs.push(vec![]); conts_per_run.push(0); conts_in_run = 0; early = false; } Err(_) => { g.rets.push("run:panic".into()); cur_rx = None; } }
+                match r { Ok(()) => { g.rets.push("run:ok".into()); g.passed.push("SPAWN".into()); g.run_no += 1; g.entry_idx = 0; cur_rx = Some(rx); runs.push(vec![]); conts_per_run.push(0); conts_in_run = 0; early = false; } Err(_) => { g.rets.push("run:panic".into()); cur_rx = None; if g.clean && restart_panic.is_none() { restart_panic = Some(format!("FAIL run() number {} returned PreviousRunPanic although every delivered event had been received: the previous parser thread panicked when it was cancelled, and the new run was not started", runs.len() + 1)); } } }
             }
             "cont" => {
                 // a continue that does not answer a received, not yet continued breakpoint event
@@ -172,6 +173,7 @@ fn worker(case: &str, trace: &str) {
             }
         }
     }
+    if let Some(m) = restart_panic { if verdict == "ok" { verdict = m; } }
     let _ = (&bps0, static_bps);
     let mut g = sh.0.lock().unwrap();
     report(&mut g, &left.join(","), "quiescent", &verdict);
@@ -304,7 +306,17 @@ fn main() {
             stats.insert("random_cases".into(), lines.len() as u64);
             lines.extend(sys_lines);
             let r = run_cases(&lines, &dir, &mut stats);
-            for (l, (o, v)) in lines.iter().zip(r) { if o.contains("DIVERGED") { *stats.entry("diverged".into()).or_default() += 1; } out.push(l.clone(), o, v); }
+            for (l, (o, v)) in lines.iter().zip(r) {
+                if o.contains("DIVERGED") { *stats.entry("diverged".into()).or_default() += 1; }
+                // model-free: cancelling the parse (the listener answers `true` from some call on) must not panic the thread
+                let ab = l.split_whitespace().find(|w| w.starts_with("aborts=")).unwrap_or("");
+                let v = if v == "ok" && ab.split(',').any(|x| x.ends_with(":p")) {
+                    *stats.entry("abort_panics".into()).or_default() += 1;
+                    let k = ab[7..].split(',').position(|x| x.ends_with(":p")).unwrap_or(0);
+                    format!("FAIL cancelling the parse panics the parser thread: with the listener answering true from call {} on, Vm::parse panics (a restart at that point returns PreviousRunPanic and starts nothing)", k + 1)
+                } else { v };
+                out.push(l.clone(), o, v);
+            }
             let samples: Vec<String> = out.ops.iter().step_by((out.ops.len() / 4).max(1)).take(4).cloned().collect();
             let stats_s = format!("{{\"evaluations\":{},\"distinct_nontrivial\":{},\"observed\":{:?},\"samples\":{:?}}}", out.ops.len(), out.ops.len(), stats, samples);
             out.write(&dir, &stats_s);
